@@ -596,7 +596,7 @@ theorem processMessage_off_le (o : Opts) (s : St) (m : Msg) : s.off ≤ (process
   repeat' split
   all_goals first | exact Int.le_refl _ | exact maybeKeep_off_le _ _ _ _
 
-theorem processInner_off_le (o : Opts) (base : Int) (codec : Nat) : ∀ (ms : List Msg) (s : St), s.off ≤ (processInner o base codec s ms).off := by
+theorem processInner_off_le (o : Opts) (base : Int) (codec : Nat) (lat : Option Int) : ∀ (ms : List Msg) (s : St), s.off ≤ (processInner o base codec lat s ms).off := by
   intro ms
   induction ms with
   | nil => intro s; simp [processInner]
@@ -604,9 +604,9 @@ theorem processInner_off_le (o : Opts) (base : Int) (codec : Nat) : ∀ (ms : Li
     intro s
     unfold processInner
     simp only
-    have h1 := processMessage_off_le o s { m with offset := m.offset + base, attrs := m.attrs ||| codec }
+    have h1 := processMessage_off_le o s (innerSeen base codec lat m)
     split
-    · have := ih (processMessage o s { m with offset := m.offset + base, attrs := m.attrs ||| codec }).1; omega
+    · have := ih (processMessage o s (innerSeen base codec lat m)).1; omega
     · exact h1
 
 theorem processOuter_off_le (o : Opts) (s s' : St) (m : Msg) (inner : Inner) (h : processOuter o s m inner = some s') : s.off ≤ s'.off := by
@@ -628,13 +628,13 @@ theorem processOuter_off_le (o : Opts) (s s' : St) (m : Msg) (inner : Inner) (h 
         · split at h
           · cases h; simp only; omega
           · cases h
-            have := processInner_off_le o (m.offset - ‹Msg›.offset) (m.attrs % 4) inner.msgs s1
+            have := processInner_off_le o (m.offset - ‹Msg›.offset) (m.attrs % 4) (if m.attrs / 8 % 2 = 1 then some m.ts else none) inner.msgs s1
             omega
       · cases h
-        have := processInner_off_le o 0 (m.attrs % 4) inner.msgs s1
+        have := processInner_off_le o 0 (m.attrs % 4) (if m.attrs / 8 % 2 = 1 then some m.ts else none) inner.msgs s1
         omega
     · cases h
-      have := processInner_off_le o 0 (m.attrs % 4) inner.msgs s1
+      have := processInner_off_le o 0 (m.attrs % 4) none inner.msgs s1
       omega
 
 theorem stepItem_off_le (o : Opts) (s s' : St) (it : Item) (h : stepItem o s it = some s') : s.off ≤ s'.off := by
